@@ -375,7 +375,8 @@ def check_property(prop_id, tier, seed, props):
         vexe = var.get("_exe") or build(prop_id, cfg, variant=var)
         for tgt in vtargets:
             res = run_target(vexe, prop_id, tgt, tier, seed, known_ids, outdir, replay_dir)
-            res["target"] = res["target"] + "@" + var["name"]
+            if "@" not in res["target"]:
+                res["target"] = res["target"] + "@" + var["name"]
             results.append(res)
             for f in res["failures"]:
                 if f["confirmed"]:
